@@ -143,11 +143,18 @@ func c14Matrix(a vh.Args, o *vh.Oracle, r *vh.Result, rng *vh.Rand) error {
 							return err
 						}
 						for di, d := range datas {
-							for _, op := range []string{"get", "get-absent", "has", "has-absent", "put"} {
+							ops := []string{"get", "get-absent", "has", "has-absent", "put"}
+							if di < 2 {
+								ops = append(ops, "get-corrupt", "get-dir", "has-dir")
+							}
+							for _, op := range ops {
 								c := &c14Case{Part: "matrix", Op: op, CliUnc: cliUnc, CliSkip: cliSkip, SrvComp: srvComp, StoreUnc: storeUnc, StoreSkip: storeSkip, Budget: 2}
 								data := d
 								if strings.HasSuffix(op, "-absent") || op == "put" {
 									data = append([]byte(fmt.Sprintf("absent-%d-", di)), d...)
+								}
+								if strings.HasSuffix(op, "-corrupt") || strings.HasSuffix(op, "-dir") {
+									data = append([]byte(fmt.Sprintf("damaged-%d-", di)), d...)
 								}
 								c.DataHex = vh.Hex(data)
 								if err := c14MatrixOne(a, o, r, c, cli, ls, dir, cnt, data); err != nil {
@@ -177,15 +184,31 @@ func c14MatrixOne(a vh.Args, o *vh.Oracle, r *vh.Result, c *c14Case, cli *desync
 	id := c15ID(data)
 	match := c.CliUnc == !c.SrvComp
 	file := c14StoreFile(dir, id, c.StoreUnc)
+	switch {
+	case strings.HasSuffix(c.Op, "-corrupt"): // a chunk file whose content belongs to other data
+		os.MkdirAll(filepath.Dir(file), 0755)
+		other := []byte("some other content")
+		if !c.StoreUnc {
+			other = c15Compress(other)
+		}
+		os.WriteFile(file, other, 0644)
+		defer os.Remove(file)
+	case strings.HasSuffix(c.Op, "-dir"): // the chunk's path is a directory: reading it fails
+		os.MkdirAll(file, 0755)
+		defer os.Remove(file)
+	}
 	before, berr := os.ReadFile(file)
+	if strings.HasSuffix(c.Op, "-dir") {
+		before, berr = nil, nil // LocalStore.GetChunk ignores the read error and goes on with no bytes
+	}
 	atomic.StoreInt64(&cnt.n, 0)
 	var got string
 	var after []byte
 	switch c.Op {
-	case "get", "get-absent":
+	case "get", "get-absent", "get-corrupt", "get-dir":
 		ch, err := cli.GetChunk(id)
 		got = c14ChunkClass(ch, err)
-	case "has", "has-absent":
+	case "has", "has-absent", "has-dir":
 		ok, err := cli.HasChunk(id)
 		got = map[bool]string{true: "true", false: "false"}[ok]
 		if err != nil {
@@ -213,7 +236,13 @@ func c14MatrixOne(a vh.Args, o *vh.Oracle, r *vh.Result, c *c14Case, cli *desync
 		r.Fail("predicate", class, fmt.Sprintf("matrix %s (client unc=%v skip=%v, server comp=%v, store unc=%v skip=%v, %d bytes): %s, got %s", c.Op, c.CliUnc, c.CliSkip, c.SrvComp, c.StoreUnc, c.StoreSkip, len(data), what, c14Short(got)), c)
 	}
 	wantData := "data:" + vh.Hex(data)
+	damaged := strings.HasSuffix(c.Op, "-corrupt") || strings.HasSuffix(c.Op, "-dir")
 	switch {
+	case damaged && got == "missing":
+		fail("matrix/failure-reported-missing", "an unreadable or corrupt chunk in the upstream store was reported as missing")
+	case damaged && c.Op != "has-dir" && strings.HasPrefix(got, "data:") && (!c.StoreSkip || !c.CliSkip || c.Op == "get-dir"):
+		fail("matrix/failure-reported-success", "an unreadable or corrupt chunk was delivered as data although verification was on")
+	case damaged:
 	case strings.HasPrefix(got, "data:") && got != wantData:
 		fail("matrix/wrong-data", "the client received data that differs from the stored chunk")
 	case match && c.Op == "get" && got != wantData:
@@ -256,7 +285,7 @@ func c14MatrixOne(a vh.Args, o *vh.Oracle, r *vh.Result, c *c14Case, cli *desync
 		blobs = append(blobs, before)
 	}
 	zt, ct := c15ZTables(blobs...)
-	op := strings.TrimSuffix(c.Op, "-absent")
+	op := strings.SplitN(c.Op, "-", 2)[0]
 	ans, err := o.Call("c14.remote", op, "2", b01(c.CliUnc), b01(c.CliSkip), "-", "1", "0", b01(c.SrvComp), b01(c.StoreUnc), b01(c.StoreSkip),
 		id.String(), vh.Hex(data), files, zt, ct)
 	if err != nil {
@@ -680,11 +709,35 @@ func (s *c14Session) runPipes(reqs []string, failing string) ([]string, error) {
 		close(done)
 	}()
 	cli := desync.NewProtocol(r2, w1)
-	if _, err := cli.Initialize(desync.CaProtocolPullChunks); err != nil {
-		return nil, err
+	closeAll := func() { r1.Close(); w1.Close(); r2.Close(); w2.Close() }
+	// the handshake and every request run under a timeout: a hang is an observable result
+	initDone := make(chan error, 1)
+	go func() { _, err := cli.Initialize(desync.CaProtocolPullChunks); initDone <- err }()
+	select {
+	case err := <-initDone:
+		if err != nil {
+			closeAll()
+			out := make([]string, len(reqs))
+			for i := range out {
+				out[i] = "E"
+			}
+			return out, nil
+		}
+	case <-time.After(5 * time.Second):
+		closeAll()
+		out := make([]string, len(reqs))
+		for i := range out {
+			out[i] = "HANG"
+		}
+		return out, nil
 	}
 	var out []string
+	hung := false
 	for _, q := range reqs {
+		if hung {
+			out = append(out, "HANG")
+			continue
+		}
 		type res struct {
 			ch  *desync.Chunk
 			err error
@@ -696,13 +749,19 @@ func (s *c14Session) runPipes(reqs []string, failing string) ([]string, error) {
 			out = append(out, c14PClass(x.ch, x.err))
 		case <-time.After(5 * time.Second):
 			out = append(out, "HANG")
-			r2.Close()
-			w1.Close()
+			hung = true
+			closeAll()
 		}
 	}
-	cli.SendGoodbye()
-	w1.Close()
-	r2.Close()
+	if !hung {
+		gb := make(chan struct{})
+		go func() { cli.SendGoodbye(); close(gb) }()
+		select {
+		case <-gb:
+		case <-time.After(2 * time.Second):
+		}
+	}
+	closeAll()
 	select {
 	case <-done:
 	case <-time.After(2 * time.Second):
